@@ -1,7 +1,7 @@
 #!/usr/bin/env bash
 # Build one variant of the simulator against the CURRENT working tree of the repository.
 #   tools/build.sh <variant>      -> prints the path of the sim binary on stdout
-# Variants: prod hook san trng-getrandom trng-getentropy trng-syscall trng-devurandom
+# Variants: prod hook san ndebug trng-getrandom trng-getentropy trng-syscall trng-devurandom
 #           cfg-<cc>-<O>-<bz|vol>   (cc: gcc|clang; O: O0|O1|O2|O3|Os)
 # Everything lands under /verif/build (never /tmp); cached by content hash of the tree and of sim/.
 set -euo pipefail
@@ -78,6 +78,7 @@ if [ ! -x "$OUT" ]; then
   case "$VARIANT" in
     prod) ;;
     hook) FLAGS="$(strip_O "$FLAGS") -O2 -DTINYJAMBU_VERIF";;
+    ndebug) FLAGS="$(strip_O "$FLAGS") -O2 -DNDEBUG";;   # what most other build systems' release configurations define
     san)  CC=clang; FLAGS="$(strip_O "$FLAGS") -O1 -g -fno-omit-frame-pointer -fsanitize=address -fsanitize-recover=address -mllvm -asan-opt-same-temp=0 -mllvm -asan-opt=0 -DTINYJAMBU_VERIF";;
     trng-getrandom)  TRNG_FLAVOR=getrandom;  TRNG_MODE=macros;;
     trng-getentropy) TRNG_FLAVOR=getentropy; TRNG_MODE=macros;;
